@@ -648,6 +648,7 @@ funcgoto(struct func *f, char *name)
 	if (!g) {
 		g = xmalloc(sizeof(*g));
 		g->label = mkblock(name);
+		g->loc = tok.loc;
 		g->defined = false;
 		*entry = g;
 	}
@@ -1296,7 +1297,7 @@ emitfunc(struct func *f, bool global)
 	for (i = 0; i < f->gotos.cap; ++i) {
 		g = f->gotos.keys[i].str ? f->gotos.vals[i] : NULL;
 		if (g && !g->defined)
-			error(&tok.loc, "label '%s' is used but not defined in function '%s'", g->label->label.u.name, f->name);
+			error(&g->loc, "label '%s' is used but not defined in function '%s'", g->label->label.u.name, f->name);
 	}
 	if (f->end->jump.kind == JUMP_NONE) {
 		v = NULL;
